@@ -16,6 +16,7 @@ func runC01(c *Ctx) {
 	c.Clause("C01.4 DATAGRAM frames are packed without a retransmission handler, and the handler-patching loop of the packer starts exactly at the frames framer.Append added")
 	c.Clause("C01.5 received DATAGRAM payloads are copied out of the packet buffer before they are queued")
 	c.Clause("C01.6 the run-loop timer folds in the loss-detection and ACK deadlines whenever the connection can still send probes/ACKs")
+	c.Clause("C01.7 lockset analysis: the frozen set of send-stream, receive-stream, framer and datagram-queue fields is only read or written with the owner's mutex held (outside the constructors)")
 	c.NotCovered("prefix/ordering/completeness of the bytes delivered (reassembly is covered structurally by C03)")
 	c.NotCovered("that retransmission eventually succeeds; liveness under arbitrary loss")
 
@@ -25,6 +26,7 @@ func runC01(c *Ctx) {
 	c.rule("C01.4", func() { c01Packer(c) })
 	c.rule("C01.5", func() { c01Datagrams(c) })
 	c.rule("C01.6", func() { c01Timer(c) })
+	c.rule("C01.7", func() { c01Guarded(c) })
 }
 
 func globalIs(v ssa.Value, obj types.Object) bool {
